@@ -138,7 +138,9 @@ def record_success(ctx: ExecutionContext) -> None:
 
 def record_cancel(ctx: ExecutionContext) -> None:
     """Record cancellation with circuit breaker (no event emitted)."""
-    if ctx.breaker is not None:
+    if ctx.breaker is not None and not ctx.settled:
+        # Never a second report: e.g. an interrupt arriving in a hook right after the
+        # call's success or failure was recorded must not add a cancel on top of it.
         ctx.breaker.record_cancel()
         ctx.settled = True
 
@@ -161,8 +163,7 @@ def ensure_settled(ctx: ExecutionContext) -> None:
     nested CircuitOpenError, raising callbacks) so a half-open probe slot is
     never leaked.
     """
-    if ctx.breaker is not None and not ctx.settled:
-        record_cancel(ctx)
+    record_cancel(ctx)
 
 
 def classify_for_breaker(exc: BaseException, retry: Any) -> ErrorClass:
